@@ -45,6 +45,9 @@ func parseData(ps []*Packet, prs PacketsParser, pm *programMap) (ds []*DemuxerDa
 		} else if skip {
 			return
 		}
+
+		// The default process takes over, the custom parser's data must not leak into its result
+		ds = nil
 	}
 
 	// Get payload length
